@@ -788,3 +788,21 @@ def c01_accept_unknown(ctx, R, rule='C01.A'):
     R.inst(rule, 'well-formed-UNKNOWN-line-not-rejected', True, expected='checked against every rejecting outcome', found='%d outcomes examined, %d classes compatible' % (n_checked, len(seen)),
            entry='v1 field parser', nontrivial=True)
     R.floor('rejecting outcomes examined (general UNKNOWN line)', n_checked, 20)
+
+
+def v1_no_panic(ctx, R, rule):
+    """the v1 entry points return a value for every input: every panic obligation met in them (bounds, arithmetic overflow, unwrap) is
+    entailed by the guards dominating it.  A path that panics has no outcome and would otherwise escape the table comparisons of this
+    property (str char-boundary obligations are decided by C03.B / the window rows)."""
+    from rules.common import no_panic_gaps
+    m = model(ctx, R)
+    n = 0
+    for which, p in (('str', m.p_str), ('bytes', m.p_bytes)):
+        if p is None:
+            continue
+        ev, outs = ctx.entry(p)
+        if ev is None:
+            continue
+        no_panic_gaps(R, rule, ev, p, label='v1::Header::try_from(%s)' % ('&str' if which == 'str' else '&[u8]'))
+        n += 1
+    return n
